@@ -1,6 +1,7 @@
 package main
 
 import (
+	"context"
 	"encoding/json"
 	"fmt"
 	"math/rand"
@@ -24,6 +25,11 @@ type XOp struct {
 	Start  bool   `json:"start,omitempty"` // start-style call (no outcome)
 	WaitUs int    `json:"wait_us,omitempty"`
 	N      int    `json:"n,omitempty"`
+	// Api: "" / "opts" CallWithOptions(Work + wrappers) | call callafter async afterasync start startafter (value-style functions)
+	Api    string `json:"api,omitempty"`
+	RateUs int    `json:"rate_us,omitempty"` // api opts: ExclusiveRateLimit(rlctx, rate)
+	Fail   bool   `json:"fail,omitempty"`    // the function resolves with / returns an error
+	Flip   bool   `json:"flip,omitempty"`    // api opts: the Work option is given after the wrappers
 }
 
 type XScenario struct {
@@ -38,7 +44,12 @@ type xExec struct {
 	mu   sync.Mutex
 	rel  map[int]chan struct{}
 	exec atomic.Int32
+	// context of every ExclusiveRateLimit of this execution
+	rlctx    context.Context
+	rlcancel context.CancelFunc
 }
+
+func execErr(e int) error { return fmt.Errorf("E%d", e) }
 
 func (x *xExec) relCh(fn int) chan struct{} {
 	x.mu.Lock()
@@ -64,16 +75,26 @@ func (x *xExec) release(g string, fn int) {
 	x.mu.Unlock()
 }
 
-func (x *xExec) work(op XOp) bigbuff.WorkFunc {
+// work returns the options that make up the work of a CallWithOptions call: the work function itself, an inner
+// wrapper, optionally the rate limit, and an outer wrapper. The outer wrapper logs wstart / wend (so the interval
+// includes what the rate limit adds), the inner wrapper logs wlayer (it must run inside the outer one: wrappers are
+// applied left -> right = inner -> outer), the work function logs wresolved.
+func (x *xExec) work(op XOp) []bigbuff.ExclusiveOption {
 	c := x.relCh(op.Fn)
 	r := x.e.R
-	return func(resolve func(result interface{}, err error)) {
-		e := int(x.exec.Add(1))
-		r.Add(rec.Ev{"ev": "wstart", "e": e, "key": op.Key, "fn": op.Fn, "mode": op.Mode})
+	var e int // identity of the execution: set by the outer wrapper (a call's work is executed at most once)
+	inner := func(resolve func(result interface{}, err error)) {
+		res := func() {
+			r.Add(rec.Ev{"ev": "wresolved", "e": e}) // logged before resolve: nobody can have seen the outcome yet
+			if op.Fail {
+				resolve(nil, execErr(e))
+			} else {
+				resolve(e, nil)
+			}
+		}
 		ctl.Gate("drv.work.run")
 		if op.Mode == "early" {
-			r.Add(rec.Ev{"ev": "wresolved", "e": e}) // logged before resolve: nobody can have seen the outcome yet
-			resolve(e, nil)
+			res()
 		}
 		if op.Held {
 			ctl.Gate("drv.work.hold")
@@ -81,11 +102,57 @@ func (x *xExec) work(op XOp) bigbuff.WorkFunc {
 		}
 		ctl.Gate("drv.work.linger")
 		if op.Mode == "late" {
-			r.Add(rec.Ev{"ev": "wresolved", "e": e})
-			resolve(e, nil)
+			res()
 		}
 		ctl.Gate("drv.work.linger")
-		r.Add(rec.Ev{"ev": "wend", "e": e})
+	}
+	w1 := func(next bigbuff.WorkFunc) bigbuff.WorkFunc {
+		return func(resolve func(result interface{}, err error)) {
+			r.Add(rec.Ev{"ev": "wlayer", "e": e})
+			next(resolve)
+		}
+	}
+	w2 := func(next bigbuff.WorkFunc) bigbuff.WorkFunc {
+		return func(resolve func(result interface{}, err error)) {
+			e = int(x.exec.Add(1))
+			r.Add(rec.Ev{"ev": "wstart", "e": e, "key": op.Key, "fn": op.Fn, "mode": op.Mode, "rate_us": op.RateUs, "fail": op.Fail})
+			t0 := time.Now()
+			next(resolve)
+			d := time.Since(t0)
+			r.Add(rec.Ev{"ev": "wend", "e": e, "dur_ns": d.Nanoseconds()})
+		}
+	}
+	opts := []bigbuff.ExclusiveOption{bigbuff.ExclusiveWrapper(w1)}
+	if op.RateUs > 0 {
+		opts = append(opts, bigbuff.ExclusiveRateLimit(x.rlctx, time.Duration(op.RateUs)*time.Microsecond))
+	}
+	opts = append(opts, bigbuff.ExclusiveWrapper(w2))
+	if op.Flip {
+		return append(opts, bigbuff.ExclusiveWork(inner))
+	}
+	return append([]bigbuff.ExclusiveOption{bigbuff.ExclusiveWork(inner)}, opts...)
+}
+
+// value returns the function of a value-style call (Call, CallAfter, CallAsync, CallAfterAsync, Start, StartAfter): it
+// resolves by returning
+func (x *xExec) value(op XOp) func() (interface{}, error) {
+	c := x.relCh(op.Fn)
+	r := x.e.R
+	return func() (interface{}, error) {
+		e := int(x.exec.Add(1))
+		r.Add(rec.Ev{"ev": "wstart", "e": e, "key": op.Key, "fn": op.Fn, "mode": "value", "rate_us": 0, "fail": op.Fail})
+		ctl.Gate("drv.work.run")
+		if op.Held {
+			ctl.Gate("drv.work.hold")
+			<-c
+		}
+		ctl.Gate("drv.work.linger")
+		r.Add(rec.Ev{"ev": "wresolved", "e": e})
+		r.Add(rec.Ev{"ev": "wend", "e": e, "dur_ns": 0})
+		if op.Fail {
+			return nil, execErr(e)
+		}
+		return e, nil
 	}
 }
 
@@ -98,38 +165,79 @@ func (x *xExec) do(g string, op XOp) {
 		}
 	case "release":
 		x.release(g, op.Fn)
+	case "rlcancel":
+		ctl.Gate("drv.call")
+		r.Add(rec.Ev{"ev": "rlcancel", "g": g})
+		x.rlcancel()
 	case "call":
 		ctl.Gate("drv.call")
-		r.Call(g, "Call", "key", op.Key, "fn", op.Fn, "start", op.Start, "wait_us", op.WaitUs, "mode", op.Mode)
+		wait := time.Duration(op.WaitUs) * time.Microsecond
+		start := op.Start || op.Api == "start" || op.Api == "startafter"
+		mode := op.Mode
+		if op.Api != "" && op.Api != "opts" {
+			mode = "value"
+		}
+		r.Call(g, "Call", "key", op.Key, "fn", op.Fn, "start", start, "wait_us", op.WaitUs, "mode", mode, "api", op.Api)
 		var out <-chan *bigbuff.ExclusiveOutcome
+		var o *bigbuff.ExclusiveOutcome
+		blocking := false
 		p := safeCall(func() {
-			out = x.x.CallWithOptions(
-				bigbuff.ExclusiveKey(op.Key),
-				bigbuff.ExclusiveWork(x.work(op)),
-				bigbuff.ExclusiveWait(time.Duration(op.WaitUs)*time.Microsecond),
-				bigbuff.ExclusiveStart(op.Start),
-			)
+			switch op.Api {
+			case "call":
+				blocking = true
+				v, err := x.x.Call(op.Key, x.value(op))
+				o = &bigbuff.ExclusiveOutcome{Result: v, Error: err}
+			case "callafter":
+				blocking = true
+				v, err := x.x.CallAfter(op.Key, x.value(op), wait)
+				o = &bigbuff.ExclusiveOutcome{Result: v, Error: err}
+			case "async":
+				out = x.x.CallAsync(op.Key, x.value(op))
+			case "afterasync":
+				out = x.x.CallAfterAsync(op.Key, x.value(op), wait)
+			case "start":
+				x.x.Start(op.Key, x.value(op))
+			case "startafter":
+				x.x.StartAfter(op.Key, x.value(op), wait)
+			default:
+				out = x.x.CallWithOptions(append(x.work(op), bigbuff.ExclusiveKey(op.Key), bigbuff.ExclusiveWait(wait), bigbuff.ExclusiveStart(op.Start))...)
+			}
 		})
 		if p != "" {
-			r.Ret(g, "Call", "r", "panic", "msg", p, "e", 0)
+			r.Ret(g, "Call", "r", "panic", "msg", p, "e", 0, "closed", true)
 			return
 		}
-		if out == nil {
-			r.Ret(g, "Call", "r", "nil", "e", 0)
-			return
+		closed := true
+		if !blocking {
+			if out == nil {
+				r.Ret(g, "Call", "r", "nil", "e", 0, "closed", true)
+				return
+			}
+			ctl.Gate("drv.outcome.recv")
+			o = <-out
+			// the channel is closed after the outcome was sent: another receive yields nil (a channel that is never
+			// closed leaves this call pending, which the quiescence / final checks report)
+			ctl.Gate("drv.outcome.recv")
+			o2, ok := <-out
+			closed = o2 == nil && !ok
 		}
-		ctl.Gate("drv.outcome.recv")
-		o := <-out
+		var e int
 		switch {
 		case o == nil:
-			r.Ret(g, "Call", "r", "closed", "e", 0)
+			r.Ret(g, "Call", "r", "closed", "e", 0, "closed", closed)
 		case o.Error != nil && strings.Contains(o.Error.Error(), "resolve not called"):
-			r.Ret(g, "Call", "r", "notresolved", "e", 0)
+			r.Ret(g, "Call", "r", "notresolved", "e", 0, "closed", closed)
+		case o.Error != nil && o.Result == nil && o.Error == context.Canceled:
+			r.Ret(g, "Call", "r", "rlcancelled", "e", 0, "closed", closed)
 		case o.Error != nil:
-			r.Ret(g, "Call", "r", "err", "msg", o.Error.Error(), "e", 0)
+			if n, _ := fmt.Sscanf(o.Error.Error(), "E%d", &e); n == 1 && o.Result == nil {
+				r.Ret(g, "Call", "r", "err", "e", e, "closed", closed)
+			} else {
+				r.Ret(g, "Call", "r", "other", "msg", o.Error.Error(), "e", 0, "closed", closed)
+			}
 		default:
-			e, _ := o.Result.(int)
-			r.Ret(g, "Call", "r", "ok", "e", e)
+			e, _ = o.Result.(int)
+			r.Ret(g, "Call", "r", "ok", "e", e, "closed", closed)
 		}
 	}
 }
@@ -168,7 +276,25 @@ func genExclScenario(rng *rand.Rand, profile, mode string) any {
 				op.Held = true
 				held = append(held, fn)
 			}
+			op.Fail = rng.Intn(5) == 0
+			switch a := rng.Intn(10); {
+			case a < 4:
+				// CallWithOptions with wrappers; a third of them rate limited
+				op.Flip = rng.Intn(2) == 0
+				if rng.Intn(3) == 0 {
+					op.RateUs = []int{200, 500, 1500}[rng.Intn(3)]
+				}
+			default:
+				op.Api = []string{"call", "callafter", "async", "afterasync", "start", "startafter"}[a-4]
+				op.Start = false
+				if op.Api == "call" || op.Api == "async" || op.Api == "start" {
+					op.WaitUs = 0
+				}
+			}
 			ops = append(ops, op)
+			if op.RateUs > 0 && rng.Intn(4) == 0 {
+				ops = append(ops, XOp{K: "rlcancel"})
+			}
 		}
 		sc.Drivers = append(sc.Drivers, ops)
 	}
@@ -179,6 +305,8 @@ func genExclScenario(rng *rand.Rand, profile, mode string) any {
 func runExclExec(execID int, sci any, e *Env) []rec.Ev {
 	sc := sci.(*XScenario)
 	x := &xExec{e: e, x: new(bigbuff.Exclusive), rel: map[int]chan struct{}{}}
+	x.rlctx, x.rlcancel = context.WithCancel(context.Background())
+	defer x.rlcancel()
 	e.R.Add(rec.Ev{"ev": "reset", "exec": execID, "mode": e.Mode})
 	for i, ops := range sc.Drivers {
 		ops := ops
